@@ -381,4 +381,8 @@ theorem bytes_below_tell (buf : List Nat) (size : Nat) (ops : List Op) (hs : siz
   have fr := encRun_frame ops (encInit buf size) (frame_encInit buf size hs) (shrinksOk_of_legalRun ops _ hl)
   exact ⟨h2, by omega, fr.cur, fr.sto⟩
 
+example : (encRun (encInit (List.replicate 12 170) 12) exampleOps).offs = 5 ∧
+    (encRun (encInit (List.replicate 12 170) 12) exampleOps).endOffs = 0 ∧
+    tell (encRun (encInit (List.replicate 12 170) 12) exampleOps) = 86 := by decide +kernel
+
 end OpusProps.C08
